@@ -49,6 +49,9 @@ pub enum Case {
     Ite { c: Fun, t: Fun, e: Fun },
     Var { id: usize },
     Const { b: bool },
+    /// every connective, one after the other, on the SAME two handles of ONE environment
+    /// (order of the connectives rotated by `rot`), each result against its own oracle
+    AllOps { a: Fun, b: Fun, rot: usize },
 }
 
 impl Case {
@@ -61,6 +64,7 @@ impl Case {
             Case::Ite { c, t, e } => {
                 json!({"kind": "ite", "c": c.to_json(), "t": t.to_json(), "e": e.to_json()})
             }
+            Case::AllOps { a, b, rot } => json!({"kind": "all-ops", "a": a.to_json(), "b": b.to_json(), "rot": rot}),
             Case::Var { id } => json!({"kind": "var", "id": id}),
             Case::Const { b } => json!({"kind": "const", "b": b}),
         }
@@ -80,6 +84,11 @@ impl Case {
                 c: Fun::from_json(&v["c"])?,
                 t: Fun::from_json(&v["t"])?,
                 e: Fun::from_json(&v["e"])?,
+            },
+            "all-ops" => Case::AllOps {
+                a: Fun::from_json(&v["a"])?,
+                b: Fun::from_json(&v["b"])?,
+                rot: v["rot"].as_u64().unwrap_or(0) as usize,
             },
             "var" => Case::Var {
                 id: v["id"].as_u64()? as usize,
@@ -183,6 +192,25 @@ pub fn check_case(c: &Case) -> Check {
                 operand_unchanged("t", t, &ht, &st, &cj)?;
                 operand_unchanged("e", e, &he, &se, &cj)?;
             }
+            Case::AllOps { a, b, rot } => {
+                let uni = universe(&[a, b], &[]);
+                let ha = a.intern(&env);
+                let hb = b.intern(&env);
+                let (ta, tb) = (a.over(&uni), b.over(&uni));
+                for round in 0..2 {
+                    for k in 0..BINOPS.len() {
+                        let op = BINOPS[(k + rot + round * 3) % BINOPS.len()];
+                        let r = env_binop(&env, op, Rc::clone(&ha), Rc::clone(&hb));
+                        expect_table(&r, &uni, &tt_binop(op, &ta, &tb), &format!("{} (after other connectives on the same operands)", op), &cj)?;
+                        let r2 = env_binop(&env, op, Rc::clone(&hb), Rc::clone(&ha));
+                        expect_table(&r2, &uni, &tt_binop(op, &tb, &ta), &format!("{} swapped (after other connectives on the same operands)", op), &cj)?;
+                    }
+                    let n = env.not(Rc::clone(&ha));
+                    expect_table(&n, &uni, &ta.not(), "not (after connectives)", &cj)?;
+                    let i = env.ite(Rc::clone(&ha), Rc::clone(&hb), Rc::clone(&ha));
+                    expect_table(&i, &uni, &ta.ite(&tb, &ta), "ite (after connectives)", &cj)?;
+                }
+            }
             Case::Var { id } => {
                 let r = env.var(*id);
                 // projection: check against a universe with neighbours
@@ -225,6 +253,7 @@ fn nontrivial(c: &Case) -> bool {
             !c.tt.is_const() && !t.tt.is_const() && !e.tt.is_const() && t != e
         }
         Case::Not { a } => a.tt.support().len() >= 2,
+        Case::AllOps { a, b, .. } => !a.tt.is_const() && !b.tt.is_const() && a != b,
         _ => false,
     }
 }
@@ -262,6 +291,7 @@ fn record(c: &Case, st: &mut Stats) {
             }
         }
         Case::Not { .. } => st.class("op:not"),
+        Case::AllOps { .. } => st.class("all-connectives-on-the-same-handles"),
         Case::Ite { .. } => st.class("op:ite"),
         Case::Var { .. } => st.class("op:var"),
         Case::Const { .. } => st.class("op:const"),
@@ -298,7 +328,12 @@ pub fn layouts3() -> Vec<(Vec<usize>, Vec<usize>)> {
 }
 
 fn gen_case(t: &mut Tape) -> Case {
-    match t.choose(12) {
+    match t.choose(14) {
+        12 | 13 => Case::AllOps {
+            a: gen_fun(t, 5, 9),
+            b: gen_fun(t, 5, 9),
+            rot: t.choose(7),
+        },
         0 => Case::Const { b: t.flag() },
         1 => Case::Var { id: t.choose(40) },
         2 => Case::Not {
@@ -363,6 +398,48 @@ pub fn run(ctx: &mut Ctx) -> Result<(), Violation> {
         check_case(&c)
     });
     ctx.stage("pairs-2var-all-ops-layouts", true, r)?;
+    for mode in [crate::fun::Operands::Plain, crate::fun::Operands::OtherEnv] {
+        let r = par_exhaustive(ctx, n, |i, st| {
+            let mut i = i as usize;
+            let fa = i % 16;
+            i /= 16;
+            let fb = i % 16;
+            i /= 16;
+            let op = BINOPS[i % 7];
+            i /= 7;
+            let (ia, ib) = &l2[i];
+            let c = Case::Bin {
+                op: op.to_string(),
+                a: Fun::new(TT::from_bits(2, fa as u64), ia.clone()),
+                b: Fun::new(TT::from_bits(2, fb as u64), ib.clone()),
+                alias: false,
+            };
+            st.eval();
+            st.class(&format!("operands:{}", mode.name()));
+            crate::fun::with_operands(mode, || check_case(&c))
+        });
+        ctx.stage(&format!("pairs-2var-all-ops-layouts-operands-{}", mode.name()), true, r)?;
+    }
+
+    // stage 1b: all connectives in sequence on the same handles of one environment
+    let n = 16u64 * 16 * l2.len() as u64;
+    let r = par_exhaustive(ctx, n, |i, st| {
+        let mut i = i as usize;
+        let fa = i % 16;
+        i /= 16;
+        let fb = i % 16;
+        i /= 16;
+        let (ia, ib) = &l2[i];
+        let c = Case::AllOps {
+            a: Fun::new(TT::from_bits(2, fa as u64), ia.clone()),
+            b: Fun::new(TT::from_bits(2, fb as u64), ib.clone()),
+            rot: (fa + fb) % 7,
+        };
+        st.evals(15);
+        record(&c, st);
+        check_case(&c)
+    });
+    ctx.stage("all-connectives-in-sequence-2var-pairs", true, r)?;
 
     // stage 2: unary / alias / var / const exhaustive over 3-variable functions
     let r = par_exhaustive(ctx, 256, |i, st| {
@@ -444,8 +521,10 @@ pub fn run(ctx: &mut Ctx) -> Result<(), Violation> {
     let r = par_random(ctx, "random-operands", cases, 120, |tape, st| {
         let mut t = Tape::new(tape);
         let c = gen_case(&mut t);
+        let mode = crate::fun::gen_operands(&mut t);
         record(&c, st);
-        check_case(&c)
+        st.class(&format!("operands:{}", mode.name()));
+        crate::fun::with_operands(mode, || check_case(&c))
     });
     ctx.stage("random-operands", false, r)?;
     Ok(())
@@ -453,7 +532,7 @@ pub fn run(ctx: &mut Ctx) -> Result<(), Violation> {
 
 pub fn replay(case: &Value) -> Check {
     match Case::from_json(case) {
-        Some(c) => check_case(&c),
+        Some(c) => crate::fun::with_operands(crate::fun::case_operands(case), || check_case(&c)),
         None => Err(Violation::new("unreadable replay case", case.clone())),
     }
 }
